@@ -287,6 +287,17 @@ type Model struct {
 	All     []*MInst
 	bound   map[*Inst]*MInst
 	Prop    string // assertion-id prefix override ("" = by lifetime)
+	Extra   [NS]int // constructor invocations made on behalf of another provider built from the same collection
+}
+
+// Twin returns the model of a second provider built from the same collection:
+// its own instances, but one table of observed objects, so that an object seen
+// through both providers for instances that must differ is reported.
+func (m *Model) Twin() *Model {
+	t := NewModel(m.W)
+	t.bound = m.bound
+	t.Prop = m.Prop
+	return t
 }
 
 func NewModel(w *World) *Model {
@@ -568,6 +579,6 @@ func (m *Model) CheckCounts(ctx string) {
 		for k := range Calls {
 			got += Calls[k][r]
 		}
-		vrt.Assert(got == m.Count[r], m.prefix(r, "ctor_count"), ctx, "constructor of registration", r, "ran", got, "times; model says", m.Count[r])
+		vrt.Assert(got == m.Count[r]+m.Extra[r], m.prefix(r, "ctor_count"), ctx, "constructor of registration", r, "ran", got, "times; model says", m.Count[r]+m.Extra[r])
 	}
 }
